@@ -297,6 +297,8 @@ def profile(kind: str):
                  bool_ops=True)
     if kind == "incoren":
         return P(max_stmts=5, functions=True, max_funcs=4, for_list=False, index_lists=False, dead_loops=False, bool_ops=True)
+    if kind == "incorei":      # for the default option inline_functions=True: no writes to globals inside functions (F-C02-c)
+        return P(max_stmts=5, functions=True, max_funcs=4, for_list=False, index_lists=False, dead_loops=False, bool_ops=True, global_writes=False)
     if kind == "incoref":
         return P(max_stmts=5, functions=True, max_funcs=3, leaf_functions=True, for_list=False, index_lists=False, dead_loops=False, bool_ops=True)
     if kind == "tco0":
@@ -342,6 +344,10 @@ def judge_equiv(drv, prog, src, pool, opts, env_seeds, budget):
         if v["verdict"] in BAD_VERDICTS:
             # effects with non-finite values are outside the compared domain (NaN has no order)
             if v["verdict"] == "trace-mismatch" and nonfinite_in_trace(drv, prog, pool, es, budget["fuel"]):
+                continue
+            # a register or stack cell of the chip holds inf / NaN at the end of the run (a value doubled a thousand times …):
+            # the run left the compared domain before or at the mismatch
+            if v.get("ic_nonfinite"):
                 continue
             return "bad", dict(v, env_seed=es, code=res["code"])
         worst = v
